@@ -121,6 +121,15 @@ def _member(sel, cur, k: int, cq: str, cid: str, idx: int, b: Built, defined: li
                                          unanalyzed_type=shim.unbound("str") if ann else None))
             lines.append(f"    self.{nm}{ann} = " + ("v" if not ann else '""'))
             add({"kind": "attribute", "id": f"{cid}/{nm}", "owner": cid, "name": nm, "static": False})
+        # tuple target: self.ix, self.iy = v, v  (mypy: one AssignmentStmt whose lvalue is a TupleExpr of MemberExprs)
+        tx, ty_ = "ix" + n, "iy" + n
+        vx = shim.var(tx, INT(), fullname=f"{cq}.{tx}", is_inferred=True)
+        vy = shim.var(ty_, INT(), fullname=f"{cq}.{ty_}", is_inferred=True)
+        stmts.append(shim.assignment([shim.tuple_expr([shim.member_expr(tx, shim.name_expr("self", "self"), node=vx),
+                                                       shim.member_expr(ty_, shim.name_expr("self", "self"), node=vy)])]))
+        lines.append(f"    self.{tx}, self.{ty_} = v, v")
+        for nm in (tx, ty_):
+            add({"kind": "attribute", "id": f"{cid}/{nm}", "owner": cid, "name": nm, "static": False})
         if again:  # re-assignment of an attribute the class body already defines: must not register a second one
             var = shim.var(again, INT(), fullname=f"{cq}.{again}")
             stmts.append(shim.assignment([shim.member_expr(again, shim.name_expr("self", "self"), node=var)]))
